@@ -20,6 +20,7 @@ type SolveResult struct {
 	Agree   []string // other solvers that returned the same verdict (thorough)
 	Conflict string
 	FailedConjunct string
+	FailedPath string
 }
 
 type solverSpec struct {
@@ -187,6 +188,17 @@ func solveOne(file string, timeoutS int, seed int, crossCheck bool) SolveResult 
 	if best.Status == "undecided" {
 		r := SolveResult{Status: "unknown", Solver: "portfolio"}
 		var parts []string
+		allErr := true
+		for _, x := range all {
+			if x.Status != "error" {
+				allErr = false
+			}
+		}
+		if allErr && len(all) > 0 {
+			r.Status = "error"
+			r.Output = firstN(all[0].Output, 500)
+			return r
+		}
 		for _, x := range all {
 			if x.Status == "timeout" {
 				r.Status = "timeout"
@@ -220,19 +232,34 @@ func solveOne(file string, timeoutS int, seed int, crossCheck bool) SolveResult 
 // solve: discharge one obligation. Conjunctive goals are split and each conjunct is decided on its own.
 func solve(dir string, id int, e *Enc, o *Obl, timeoutS int, seed int, crossCheck bool) SolveResult {
 	want := "unsat"
-	conds := []T{o.Cond}
+	type goal struct {
+		path, cond T
+		extra      []string
+	}
+	var goals []goal
 	if o.Cover {
 		want = "sat"
-	} else if cs := splitConj(o.Cond.S); len(cs) > 1 {
-		conds = nil
-		for _, c := range cs {
-			conds = append(conds, T{c, SBool})
+		goals = []goal{{o.Path, o.Cond, o.Extra}}
+	} else if len(o.Subs) > 0 {
+		for _, sg := range o.Subs {
+			for _, c := range splitConj(sg.Cond.S) {
+				goals = append(goals, goal{sg.Path, T{c, SBool}, sg.Extra})
+			}
+		}
+	} else {
+		for _, c := range splitConj(o.Cond.S) {
+			goals = append(goals, goal{o.Path, T{c, SBool}, o.Extra})
 		}
 	}
 	total := SolveResult{Status: want}
-	for k, c := range conds {
+	for k, g := range goals {
 		sub := *o
-		sub.Cond = c
+		sub.Subs = nil
+		sub.Path, sub.Cond, sub.Extra = g.path, g.cond, g.extra
+		c := g.cond
+		if c.S == "true" {
+			continue
+		}
 		file := filepath.Join(dir, fmt.Sprintf("q%05d_%d.smt2", id, k))
 		full := "(set-logic ALL)\n" + e.Query(&sub)
 		if o.Cover {
@@ -256,6 +283,7 @@ func solve(dir string, id int, e *Enc, o *Obl, timeoutS int, seed int, crossChec
 			total.Status = r.Status
 			total.Output = r.Output
 			total.FailedConjunct = c.S
+			total.FailedPath = g.path.S
 			if r.Status == "sat" && want == "unsat" {
 				mfile := filepath.Join(dir, fmt.Sprintf("q%05d_%d_model.smt2", id, k))
 				_ = os.WriteFile(mfile, []byte("(set-option :produce-models true)\n"+full+"(get-model)\n"), 0o644)
